@@ -319,6 +319,12 @@ class Check:
         return [self.samples[(i * (n - 1)) // (k - 1)] for i in range(k)]
 
     def obligation_broken(self, what, detail):
+        for b in self.broken:
+            if b["what"] == what:
+                b["count"] = b.get("count", 1) + 1
+                if len(b.setdefault("more_details", [])) < 2:
+                    b["more_details"].append(detail)
+                return
         self.broken.append({"what": what, "detail": detail})
 
     def finish(self, build_res, prop_file, trusted_base, rule, level="proof", extra=None):
@@ -405,3 +411,13 @@ def generic_replay(run_fn, path):
         print(json.dumps(r, indent=1, default=str)[:3000])
     rc = run_fn(r.get("tier", "quick"), int(r.get("seed", 0)))
     return rc
+
+
+def safe_run_cases(check, imports, pairs, what="model evaluation", **kw):
+    """run_cases, but a failure of Coq itself (e.g. a Gen file that no longer type-checks) is
+    recorded as a broken obligation instead of aborting the check."""
+    try:
+        return run_cases(imports, pairs, **kw)
+    except RuntimeError as e:
+        check.obligation_broken(f"{what}: the model could not be evaluated", str(e)[-1500:])
+        return [], {"files": 0, "failed": True}
